@@ -35,7 +35,8 @@ type job struct {
 	ID       int    `json:"id"`
 	Kind     string `json:"kind"` // zng | typevalue | validate | vng | vnghdr | text | query
 	Format   string `json:"format,omitempty"`
-	Data     string `json:"data"` // hex
+	Family   string `json:"family,omitempty"` // text: the format the input was derived from
+	Data     string `json:"data"`             // hex
 	TypeVal  string `json:"typeval,omitempty"`
 	Threads  int    `json:"threads,omitempty"`
 	Size     int    `json:"size,omitempty"`
@@ -44,6 +45,8 @@ type job struct {
 	Scan     bool   `json:"scan,omitempty"`
 	Chunk    int    `json:"chunk,omitempty"`
 	WantVals bool   `json:"want_vals,omitempty"`
+	// NoConsume: validate jobs: do not hand the accepted value to a consumer
+	NoConsume bool `json:"no_consume,omitempty"`
 }
 
 type valJ struct {
@@ -191,6 +194,10 @@ func jobValidate(j *job, body []byte, r *result) error {
 		return err
 	}
 	r.Accept = true
+	if j.NoConsume {
+		r.After = "not-consumed"
+		return nil
+	}
 	// a consumer of the validated value: the ZSON formatter walks the whole value
 	perr, panicked := Protect(func() error { _ = zson.FormatValue(val); return nil })
 	if panicked {
